@@ -225,10 +225,12 @@ def check_conversion(ctx, W, S0, plan, final_seq, agents, validate, ops):
             alone.append([[("nop" if a.name == "nop" else (a.name, tuple(a.parameters))) for a in ja.actions]
                           for ja in PlanConverter(d).convert_plan(p, path, list(o), should_validate_concurrency_constraint=validate)])
 
+        shared_conv = PlanConverter(d) if ctx.s("cfg").chance(1, 2) else None  # one converter for both threads, or one each
+
         def mk(o):
             return lambda: [[("nop" if a.name == "nop" else (a.name, tuple(a.parameters))) for a in ja.actions]
-                            for ja in PlanConverter(d).convert_plan(p, path, list(o),
-                                                                    should_validate_concurrency_constraint=validate)]
+                            for ja in (shared_conv or PlanConverter(d)).convert_plan(
+                                p, path, list(o), should_validate_concurrency_constraint=validate)]
         results, switches = C.concurrent(ctx, [mk(o) for o in orders])
         for o, r, a in zip(orders, results, alone):
             if r != ("ok", a):
